@@ -1,4 +1,4 @@
 SPECIFICATION Spec
 CONSTANT AllowNonLinear = FALSE
-INVARIANTS HHermitian IsSound
+INVARIANTS HHermitian IsSound ParityAccepted
 CHECK_DEADLOCK FALSE
